@@ -78,6 +78,8 @@ structure St where
   sessCases : Nat := 0
   directComplete : Nat := 0
   routeCases : Nat := 0
+  v2Pols : Nat := 0
+  v2OneBit : Nat := 0
   hintRoutes : Nat := 0
   metaCases : Nat := 0
   storedChecked : Nat := 0
@@ -374,7 +376,11 @@ def step (s : St) (line : String) : IO St := do
           (kv? rest "p1").bind parsePol, (kv? rest "p2").bind parsePol with
     | some id, some a, some b, some cap, some p1, some p2 =>
       let hs := if kvNat? rest "hint" == some 1 then id :: s.hintIds else s.hintIds
-      return { s with graph := s.graph ++ [⟨id, a, b, cap, p1, p2⟩], hintIds := hs }
+      let pvs := [(kv? rest "pv1").getD "-", (kv? rest "pv2").getD "-"]
+      let v2 := (pvs.filter (fun v => v.startsWith "2:")).length
+      let one := (pvs.filter (fun v => v == "2:1" || v == "2:2")).length
+      return { s with graph := s.graph ++ [⟨id, a, b, cap, p1, p2⟩], hintIds := hs,
+                      v2Pols := s.v2Pols + v2, v2OneBit := s.v2OneBit + one }
     | _, _, _, _, _, _ => return { s with badParse := true }
   | ["bw", id, v] =>
     match nat? id, nat? v with
@@ -448,6 +454,8 @@ def main : IO Unit := do
   IO.println s!"STAT cases_graph_db={s.dbCases}"
   IO.println s!"STAT cases_payment_session={s.sessCases}"
   IO.println s!"STAT direct_channel_completeness_checks={s.directComplete}"
+  IO.println s!"STAT policies_gossip_v2={s.v2Pols}"
+  IO.println s!"STAT policies_gossip_v2_one_disable_bit={s.v2OneBit}"
   IO.println s!"STAT routes_via_FindRoute={s.routeCases}"
   IO.println s!"STAT routes_FindRoute_without_edge_replay={s.noEdges}"
   IO.println s!"STAT routes_over_route_hints={s.hintRoutes}"
